@@ -7,14 +7,16 @@ EXTRA="$@"
 export GOFLAGS=-mod=mod GOPROXY=off GOSUMDB=off GOTOOLCHAIN=local
 cd $WT || exit 2
 git checkout -q -- . ; rm -f $PKG/zz_seed_demo_test.go
+NEWDIR=0; [ -d $PKG ] || { mkdir -p $PKG; NEWDIR=1; }
+BASEPKG=./$PKG/; [ $NEWDIR = 1 ] && BASEPKG=""
 run() { timeout 1200 go test -vet=off -count=1 -p 4 "$@" 2>&1 | tail -5; return ${PIPESTATUS[0]}; }
-echo "== existing tests, clean tree"; run ./$PKG/ $EXTRA; R0=$?
+echo "== existing tests, clean tree"; run $BASEPKG $EXTRA; R0=$?
 cp $SD/$DEMO $PKG/zz_seed_demo_test.go
 echo "== demo on clean tree (expect pass)"; run ./$PKG/ -run 'Seed|Demo|seed|demo|TestC[0-9][0-9][AB]_|Preexisting'; R1=$?
 git apply $SD/patch.diff || { echo "PATCH DOES NOT APPLY"; exit 3; }
 echo "== demo with patch (expect FAIL)"; run ./$PKG/ -run 'Seed|Demo|seed|demo|TestC[0-9][0-9][AB]_|Preexisting'; R2=$?
 rm -f $PKG/zz_seed_demo_test.go
-echo "== existing tests with patch (expect pass)"; run ./$PKG/ $EXTRA; R3=$?
-git checkout -q -- .
+echo "== existing tests with patch (expect pass)"; run $BASEPKG $EXTRA; R3=$?
+git checkout -q -- .; [ $NEWDIR = 1 ] && rm -rf $PKG
 echo "RESULT clean_tests=$R0 demo_clean=$R1 demo_patched=$R2 tests_patched=$R3"
 [ $R0 = 0 ] && [ $R1 = 0 ] && [ $R2 != 0 ] && [ $R3 = 0 ] && echo VALID || echo INVALID
